@@ -1,6 +1,6 @@
 (* C03 driver: the Go-shaped model (extracted from Model/PvmGo.v, repaired shape) predicts the outcome class of
    every case - never a Go panic - and its allocation account. The measured allocation a=<bytes> printed by the
-   harness is replaced by a=ok when it is at most 21/20 of the model's exact account plus a fixed slack per kind
+   harness is replaced by a=ok when it is at most 21/20 of the proved bound plus a fixed slack per kind
    of call (the slack covers what is not a make of the modelled code: error values, the Host struct, the page
    map's buckets, copies a run makes out of mapped memory) AND that account is within the proved bound
    (C03_alloc_bound); k=<exit kind> is compared only where the model fixes it (k=* otherwise). *)
@@ -13,10 +13,14 @@ let huh = "18446744073709551607"
 (* storage of the page map itself (Go runtime map growth, not a make of the code): at most 128 bytes per mapped page *)
 let map_overhead s alen = ZA.div (za (declared s alen)) (ZA.of_int 32)
 
-(* limit for the measured allocation: 21/20 * account + slack; an account above the proved bound gives limit -1 *)
+(* limit for the measured allocation: 21/20 * the PROVED bound (C03_alloc_bound: 512*|p| + 65536 + declared + declared/128,
+   i.e. "a fixed bound plus the sizes the blob declares") + slack; an account above the proved bound gives limit -1.
+   The limit was 21/20 * the model's exact account at first: that is the footprint of the code as it is written today, which
+   the property does not fix - a behaviour-preserving rewrite that allocates one backing array per zone and pre-sizes the page
+   map (neutral/C03/N3) went 2 % over it. The property only states the bound, so the bound is what is checked. *)
 let limit (account : n) (proved : n) (slack : ZA.t) : ZA.t =
   if ZA.gt (za account) (za proved) then ZA.minus_one
-  else ZA.add (ZA.div (ZA.mul (za account) (ZA.of_int 21)) (ZA.of_int 20)) slack
+  else ZA.add (ZA.div (ZA.mul (za proved) (ZA.of_int 21)) (ZA.of_int 20)) slack
 
 (* expected output and the limit for the measured allocation *)
 let model toks : string * ZA.t =
